@@ -663,6 +663,20 @@ fn sequences(tier: Tier) -> Vec<Vec<RFrame>> {
             }
         }
     }
+    // frames larger than the connection's initial 8 KiB buffer in the company of other frames (the
+    // encoded lengths 8192 / 8193 straddle the capacity): before, after and between small frames
+    let bigs: Vec<RFrame> = [8183usize, 8184, 8192, 8193, 20_000].iter().map(|n| RFrame::Bulk(vec![b'q'; *n])).collect();
+    let mates = vec![RFrame::Simple(b"OK".to_vec()), RFrame::Integer(-12), RFrame::Null, RFrame::Bulk(b"\r\n".to_vec()), RFrame::Array(vec![RFrame::Bulk(b"GET".to_vec()), RFrame::Bulk(b"k".to_vec())])];
+    for big in &bigs {
+        for m in &mates {
+            seqs.push(vec![big.clone(), m.clone()]);
+            seqs.push(vec![m.clone(), big.clone()]);
+            seqs.push(vec![m.clone(), big.clone(), m.clone()]);
+            seqs.push(vec![big.clone(), m.clone(), m.clone()]);
+        }
+        seqs.push(vec![big.clone(), big.clone()]);
+        seqs.push(vec![RFrame::Array(vec![RFrame::Bulk(b"SET".to_vec()), RFrame::Bulk(b"k".to_vec()), big.clone()]), RFrame::Array(vec![RFrame::Bulk(b"GET".to_vec()), RFrame::Bulk(b"k".to_vec())])]);
+    }
     seqs
 }
 
@@ -680,7 +694,13 @@ fn cut_sets(n: usize, tier: Tier) -> Vec<Vec<usize>> {
     } else {
         out.push(vec![]);
         out.push((1..n).collect());
-        let pos: Vec<usize> = if n <= 80 { (1..n).collect() } else { (1..40).chain((n / 2 - 3)..(n / 2 + 3)).chain((n - 40)..n).collect() };
+        let mut pos: Vec<usize> = if n <= 80 { (1..n).collect() } else { (1..40).chain((n / 2 - 3)..(n / 2 + 3)).chain((n - 40)..n).collect() };
+        if n > 8200 {
+            // around the initial buffer capacity
+            pos.extend((8185..8200).filter(|c| *c < n));
+            pos.sort_unstable();
+            pos.dedup();
+        }
         for &a in &pos {
             out.push(vec![a]);
         }
